@@ -3438,9 +3438,9 @@ class SQLCompiler(Compiled):
             # expressions to render.
 
             if typ_dialect_impl._is_tuple_type:
-                replacement_expression = (
-                    "VALUES " if self.dialect.tuple_in_values else ""
-                ) + self.visit_empty_set_op_expr(
+                # the "empty set" is a SELECT; no VALUES keyword
+                # for dialect.tuple_in_values here
+                replacement_expression = self.visit_empty_set_op_expr(
                     parameter.type.types, parameter.expand_op
                 )
 
